@@ -26,10 +26,21 @@ rand    `-` or `<seed>:<d,d,…>` raw Int63 draws of math/rand after Seed(seed)
         o for a request = failed attempts `<i>!` / `-` (Select returned nil) and the end `<i>` | `503` | `502`,
         joined by `/`; o for `f<k>` = `ok` | `-`
 
+  key <src> <remote> <clientip> <uri> <host> <headers> <query> <key|fb> <table>
+        what a hash policy takes from the request: src = `iph` | `ciph` | `urih` | `hdr:<field hex>` | `qry:<key hex>`;
+        req.RemoteAddr, the client_ip var, req.RequestURI, req.Host (hex); headers = `-` or `name:value;…` (hex, wire
+        order); query = `-` or `key:value;…` (hex, the parsed URL query in order); then the key the harness expects
+        (hex, `fb` = fallback) and the hashes of the 8 probe upstreams with that key. answer `<i>` (probe upstream
+        chosen) | `fb` (the fallback decided) | `key:<hex>` (model only: it derives another key)
+  ck <name> <cookies>
+        what the cookie policy takes from the request: cookies = `-` or `name:value;…` (hex, header order); a value
+        `t<j>` stands for the HMAC token of probe upstream j (0-7). answer `<j>` | `fb`
+
 answer  `<r>,<r>,… c=<counter|-> a=<availability bits|->`, r = `nil` | `<i>` | `<i>+ck<id>` | `panic:idx` | `panic:nil`;
         `err:provision` if the policy is rejected; `starved` if the draws run out; `bad-op` if malformed.
 -/
 import CaddyModel.C08.Model
+import CaddyModel.C08.Keys
 import CaddyModel.C08.Witness
 
 namespace CaddyModel.C08
@@ -247,7 +258,60 @@ def proxyAnswer (p : Policy) (c : PCfg) (evs : List Ev) (ds : List Nat) : String
       ++ " n=" ++ showNatList (prun c (pinit p c ds) evs).2.loads
       ++ " f=" ++ showNatList (prun c (pinit p c ds) evs).2.fails
 
+/-- `-` or `hex:hex;hex:hex;…` -/
+def parsePairs (s : String) : Option (List (Bytes × Bytes)) :=
+  if s == "-" then some [] else
+  (s.splitOn ";").mapM fun kv =>
+    match kv.splitOn ":" with
+    | [k, v] => do pure ((← Hex.decode k), (← Hex.decode v))
+    | _ => none
+
+def parseKeySrc (s : String) : Option KeySrc :=
+  match s.splitOn ":" with
+  | ["iph"] => some .ipHash
+  | ["ciph"] => some .clientIpHash
+  | ["urih"] => some .uriHash
+  | ["hdr", f] => (Hex.decode f).map .header
+  | ["qry", k] => (Hex.decode k).map .query
+  | _ => none
+
+/-- the probe pool of the `key` op: 8 available upstreams with the given hashes -/
+def probePool (hs : List Nat) : Pool := hs.map fun h => ⟨0, true, 0, none, none, 0, 0, h⟩
+
+def showSel : Res → String
+  | .sel i => toString i
+  | .none => "nil"
+  | _ => "panic"
+
+/-- cookie reference: `t<j>` = the token of probe upstream j, anything else matches no upstream -/
+def tokenIdx (v : Bytes) : Option Nat :=
+  match v with
+  | 116 :: [d] => if 48 ≤ d ∧ d ≤ 55 then some (d.toNat - 48) else none
+  | _ => none
+
 def handle : List String → String
+  | ["key", src, remote, cip, uri, host, hdrs, qry, lkey, tbl] =>
+    match parseKeySrc src, Hex.decode remote, Hex.decode cip, Hex.decode uri, Hex.decode host, parsePairs hdrs,
+          parsePairs qry, parseNums max64 tbl with
+    | some src, some remote, some cip, some uri, some host, some hdrs, some qry, some tbl =>
+      match (if lkey == "fb" then some none else (Hex.decode lkey).map some) with
+      | none => "bad-op"
+      | some lk =>
+        if (lk.isNone && tbl.length ≠ 0) || (lk.isSome && tbl.length ≠ 8) then "bad-op"
+        else match hashKey src ⟨remote, cip, uri, host, C10.fromWire hdrs, qry, []⟩, lk with
+          | none, none => "fb"
+          | none, some _ => "fb"
+          | some k, some l => if k = l then showSel (selHash (probePool tbl)) else "key:" ++ Hex.encode k
+          | some k, none => "key:" ++ Hex.encode k
+    | _, _, _, _, _, _, _, _ => "bad-op"
+  | ["ck", name, cks] =>
+    match Hex.decode name, parsePairs cks with
+    | some name, some cks =>
+      if name.isEmpty then "bad-op" else
+      match cookieValue name cks with
+      | some v => (match tokenIdx v with | some j => toString j | none => "fb")
+      | none => "fb"
+    | _, _ => "bad-op"
   | ["prx", mode, pol, cfg, ups, script, rnd] =>
     match parseProxyPolicy pol, parsePUps ups, (script.splitOn ",").mapM parseEv, parseRand rnd with
     | some p, some ups, some evs, some ds =>
